@@ -55,6 +55,11 @@ func TestMakeReplays(t *testing.T) {
 	c2 := RTCase{Pkg: p2, Leg: "python", Runs: []RTRun{{Proto: "Proto0", Steps: []value.StepValues{{
 		Value: &value.Value{K: value.Union, Case: 1, Items: []*value.Value{{K: value.Union, Case: 0}}}}}}}}
 	writeReplay(t, "C01", "python-nested-optional-collapses", "c01", "Optional[Optional[int]]: present-but-null read back as absent", c2)
+	// Python: zero-dimensional array holding an empty vector
+	p3 := onePkg(proto(model.Field{Name: "a", Type: model.DynArray(model.Vector(model.Prim("int32")))}))
+	c3 := RTCase{Pkg: p3, Leg: "python", Runs: []RTRun{{Proto: "Proto0", Steps: []value.StepValues{{
+		Value: &value.Value{K: value.Array, Shape: []uint64{}, Items: []*value.Value{{K: value.Seq, Items: []*value.Value{}}}}}}}}}
+	writeReplay(t, "C01", "python-array-of-vector", "c01", "Expected a list, got numpy.ndarray", c3)
 	for _, f := range extraReplays {
 		f(t)
 	}
